@@ -206,7 +206,7 @@ def resolve_missing(unit, gen, res, log):
   for d in res["diags"]:
     msg = d.get("message") or ""
     m = re.search(r"cannot find (value|function) `([A-Za-z_][A-Za-z0-9_]*)` in this scope", msg)
-    m2 = re.search(r"no (?:function or associated item|method|associated item) named `([A-Za-z_][A-Za-z0-9_]*)` found for (?:struct|enum|reference|type) `&?(?:mut )?([A-Za-z_][A-Za-z0-9_:]*)", msg)
+    m2 = re.search(r"no (?:function or associated item|method|associated item|associated function or constant) named `([A-Za-z_][A-Za-z0-9_]*)` found for (?:struct|enum|reference|type) `&?(?:mut )?([A-Za-z_][A-Za-z0-9_:]*)", msg)
     if not m and not m2:
       continue
     name = m.group(2) if m else m2.group(1)
